@@ -39,6 +39,7 @@ const (
 type Prop struct {
 	ID       string
 	Num      int
+	NumOf    func(in []int64) int // optional: the dispatch number of a case (a family evaluated by another Run file, e.g. Run/C106.v); default Num
 	SpecMode string // "equal" (sub 1 output vs impl), "rel" (sub 2 verdict), "none"
 	Gen      func(c *Ctx)
 	Impl     func(in []int64) []int64
@@ -118,7 +119,7 @@ func (m *Model) CallOracle(p *Prop, sub int, args []int64) []int64 {
 	n := int64(0)
 	for iter := 0; iter < 100000; iter++ {
 		full := append(append(append([]int64{}, args...), n), tbl...)
-		out := m.Call(p.Num, sub, full)
+		out := m.Call(p.numOf(args), sub, full)
 		if len(out) > 0 && out[0] == ASK && p.Oracle != nil {
 			q := out[1:]
 			a := p.Oracle(q)
@@ -268,6 +269,14 @@ func instrNotes() []string {
 	return out
 }
 
+// numOf: the dispatch number the model is asked under for this case
+func (p *Prop) numOf(in []int64) int {
+	if p.NumOf != nil {
+		return p.NumOf(in)
+	}
+	return p.Num
+}
+
 func (c *Ctx) Note(s string)      { c.mu.Lock(); c.notes = append(c.notes, s); c.mu.Unlock() }
 func (c *Ctx) SetExhaustive()     { c.exhaustive = true }
 func (c *Ctx) Count(h, k string) {
@@ -321,7 +330,7 @@ func (t *T) eval2(in []int64) (*Failure, []int64) {
 		model = t.M.CallOracle(p, 0, in)
 		t.last0 = t.M.lastFull
 	} else {
-		model = t.M.Call(p.Num, 0, in)
+		model = t.M.Call(p.numOf(in), 0, in)
 	}
 	if p.ImplM != nil {
 		q := *p
@@ -334,7 +343,7 @@ func (t *T) eval2(in []int64) (*Failure, []int64) {
 		if p.Oracle != nil {
 			spec = t.M.CallOracle(p, 1, in)
 		} else {
-			spec = t.M.Call(p.Num, 1, in)
+			spec = t.M.Call(p.numOf(in), 1, in)
 		}
 		specOK = matchSpec(spec, impl)
 	case "rel":
@@ -342,7 +351,7 @@ func (t *T) eval2(in []int64) (*Failure, []int64) {
 		if p.Oracle != nil {
 			spec = t.M.CallOracle(p, 2, arg)
 		} else {
-			spec = t.M.Call(p.Num, 2, arg)
+			spec = t.M.Call(p.numOf(in), 2, arg)
 		}
 		specOK = len(spec) == 1 && spec[0] == 1
 	}
@@ -385,7 +394,7 @@ func (t *T) Try(family string, in []int64, nontrivial bool) bool {
 		// keep a sample with the model's answer
 		c.samples = append(c.samples, map[string]interface{}{"family": family, "in": clip(in, 120), "impl_out": clip(implOut, 60)})
 	}
-	if len(c.kernel) < 150 && f == nil && len(in) < 400 && c.P.Oracle == nil {
+	if len(c.kernel) < 150 && f == nil && len(in) < 400 && c.P.Oracle == nil && c.P.numOf(in) == c.P.Num {
 		c.kernel = append(c.kernel, [2][]int64{in, nil})
 	}
 	if len(c.kernel) < 150 && f == nil && c.P.Oracle != nil && t.last0 != nil && len(t.last0) < 2500 && c.evals%97 == 0 {
